@@ -249,11 +249,16 @@ def validate_regex_hypotheses(ck, tier):
     rng = ck.rng
     pats = {}
     for name in ("IOSXEDriver", "IOSXRDriver", "NXOSDriver", "EOSDriver", "JunosDriver"):
-        pats[name] = getattr(C, name)(host="h").comms_prompt_pattern
+        drv = getattr(C, name)(host="h")
+        pats[name] = drv.comms_prompt_pattern
+        # each level's own pattern: what _escalate passes to send_inputs_interact as the expected response and as
+        # interaction_complete_patterns (GoodStep.resp_lines / compl_lines of interact_exact)
+        for lvl, pl in drv.privilege_levels.items():
+            pats[f"{name}.{lvl}"] = pl.pattern
     pats["GenericDriver"] = D.GenericDriver(host="h").comms_prompt_pattern
     frag = [b"r1#", b"r1>", b"r1(config)#", b"r1(config-if)#", b"RP/0/RP0/CPU0:xr#", b"u@h>", b"u@h# ", b"{master:0}", b"[edit]", b"%", b"root@h:~ # ", b"x-tcl#",
             b"sw(config-s)#", b"", b" ", b"\t", b"abc def", b"Password:", b"a>b", b"#", b">", b"line one", b"r1# ", b"r1#  "]
-    n = 1500 if tier == "quick" else 15000
+    n = 6000 if tier == "quick" else 60000
     bad = 0
     for name, pat in pats.items():
         c = re.compile(pat.encode(), re.M | re.I)
@@ -297,8 +302,8 @@ def run(tier, seed):
         translate.translate(PID)
     except Exception as e:
         ck.proof_broken("translator gen/c01.py", repr(e))
-    ck.prove("ScrapliProps.C01", lemma_files=["ScrapliProps/C01Lemmas.lean", "ScrapliModel/Channel/Chan.lean", "ScrapliModel/Channel/Basic.lean",
-                                                "ScrapliModel/Channel/Ansi.lean"])
+    ck.prove("ScrapliProps.C01", lemma_files=["ScrapliProps/C01Lemmas.lean", "ScrapliProps/C01Interact.lean", "ScrapliModel/Channel/Chan.lean",
+                                                "ScrapliModel/Channel/Basic.lean", "ScrapliModel/Channel/Ansi.lean"])
     if tier == "thorough":
         ck.leanchecker("ScrapliProps.C01")
     for f in ck.findings:
